@@ -13,7 +13,8 @@
    exactly that rest, for every nesting budget above the length of the encoding (in particular fuel_for).
    Instances: C01_generated (all 309 generated struct descriptors, the pointer types handed to ua.Decode, the Variant
    element types), C01_service (type id + body as DecodeService reads them; decode_service is a transcription of
-   service.go:35-54 whose two halves, not itself, are covered by the correspondence).
+   service.go:35-54; the check runs ua.DecodeService on every generated service message and compares it with that
+   composition: type id, registered type, ua.Decode of the body).
    Outside rwf, with theorems stating what happens instead: extension objects whose registered body is an empty
    struct (REFUTED, known finding extobj-empty-struct), zero array dimensions, nil struct pointers. *)
 From Coq Require Import NArith ZArith List Bool Lia.
